@@ -931,6 +931,55 @@ fn main() {
     let mut out = std::io::BufWriter::new(stdout.lock());
     match sub.as_str() {
         "limits" => writeln!(out, "fbuf={} slots={} segs={}", FRAGMENTATION_BUFFER_SIZE, REASSEMBLY_BUFFER_COUNT, ASSEMBLER_MAX_SEGMENT_COUNT).unwrap(),
+        "witness" => {
+            // hand-made regression cases kept in corpus/C12 (defect D8 and the stale-checksum defect)
+            let fb = FRAGMENTATION_BUFFER_SIZE.to_string();
+            let mk = |id: &str, medium: &str, mtu: usize, kinds: &str, ops: Vec<String>| Case {
+                id: id.into(),
+                cfg: vec![
+                    ("k".into(), "tx".into()),
+                    ("medium".into(), medium.into()),
+                    ("mtu".into(), mtu.to_string()),
+                    ("fbuf".into(), fb.clone()),
+                    ("socks".into(), kinds.len().to_string()),
+                    ("kinds".into(), kinds.into()),
+                ],
+                ops,
+            };
+            let udp = |i: u16, b: u8, n: usize| hex(&udp_ip_payload(LOCAL, PEER, 1000 + i, 2000 + i, &vec![b; n]));
+            let polls = |b: i64, n: usize| -> Vec<String> { (0..n).map(|_| format!("poll {}", b)).collect() };
+            let mut v = vec![];
+            let mut ops = vec![format!("send 0 {}", udp(0, 0x11, 1200)), format!("send 0 {}", udp(0, 0x22, 1200))];
+            ops.extend(polls(-1, 6));
+            v.push(mk("d8-two-udp-1200-mtu576", "ip", 576, "u", ops));
+            let mut ops = vec![format!("send 0 {}", udp(0, 0x11, 1200)), format!("send 0 {}", udp(0, 0x22, 1200))];
+            ops.extend(polls(1, 9));
+            v.push(mk("d8-two-udp-one-frame-per-poll", "ip", 576, "u", ops));
+            let data: Vec<u8> = (0..1000).map(|i| (i * 13 + 1) as u8).collect();
+            let mut ops = vec![format!("send 0 {}", udp(0, 0x33, 1200)), "poll 1".into()];
+            ops.push(format!("echo {} {}", hex(&icmp_echo(0, 0x4242, 1, &data)), hex(&icmp_echo(8, 0x4242, 1, &data))));
+            ops.extend(polls(-1, 6));
+            v.push(mk("d8-echo-reply-while-socket-datagram-mid-fragmentation", "ip", 576, "u", ops));
+            let mut ops = vec![format!("send 0 {}", udp(0, 0x44, 1400)), format!("send 1 {}", hex(&vec![0x55u8; 1400]))];
+            ops.extend(polls(-1, 8));
+            v.push(mk("d8-two-sockets-ethernet", "eth", 576, "ur", ops));
+            let mut ops = vec![format!("send 0 {}", udp(0, 0x5a, 1400))];
+            ops.extend(polls(-1, 5));
+            ops.push(format!("send 1 {}", hex(&icmp_echo(8, 0x101, 1, &vec![0x33u8; 700]))));
+            ops.extend(polls(-1, 4));
+            v.push(mk("stale-buffer-icmp-socket-checksum", "ip", 576, "ui", ops));
+            let mut ops = vec![format!("send 0 {}", udp(0, 0x5a, 1400))];
+            ops.extend(polls(-1, 5));
+            let data = vec![0x77u8; 900];
+            ops.push(format!("echo {} {}", hex(&icmp_echo(0, 0x4242, 2, &data)), hex(&icmp_echo(8, 0x4242, 2, &data))));
+            ops.extend(polls(-1, 4));
+            v.push(mk("stale-buffer-echo-reply-checksum", "ip", 576, "u", ops));
+            for c in v {
+                if tier == "quick" || tier == c.id {
+                    c.write(&mut out);
+                }
+            }
+        }
         "gen" => {
             for c in gen_cases(seed, seed, n, &tier) {
                 c.write(&mut out);
